@@ -1,6 +1,6 @@
 """C20: only explicit metadata loads ever name a topic (or a partition of a known topic) the client has not loaded."""
 import kproto
-from val import T, dumps, some
+from val import T, dumps
 from props.common import brokers, fp, pm
 from props.c06 import replay_merge
 from props.c12 import xxh32
